@@ -7,6 +7,7 @@ package sim
 import (
 	"fmt"
 	"hash/fnv"
+	"math"
 	"os"
 	"runtime"
 	"sort"
@@ -84,6 +85,12 @@ type SchedParams struct {
 	// delivery at once between two quiescent points. Which inputs form a burst stays seeded; the interleaving
 	// inside a burst is left to the Go scheduler (this is the one place the simulator gives up schedule control).
 	Free bool `json:"free,omitempty"`
+	// AlignTick (parallel burst mode only): probability that a goroutine about to take its first woven lock first sleeps
+	// until the next whole second of simulated time, i.e. wakes at the very instant lal's 1 s tickers fire. Under the
+	// fake clock timer-driven goroutines otherwise only ever run while every other goroutine is blocked, and every
+	// quiescent point orders what came before it with what comes after: without this, code that runs on a ticker is
+	// never concurrent (for the race detector) with request handlers.
+	AlignTick float64 `json:"align_tick,omitempty"`
 	// YieldUnlock: probability that a mutex release is followed by a park point (0: never)
 	YieldUnlock float64 `json:"yield_unlock,omitempty"`
 	// YieldWrite: probability that handing a message to a connection's write queue is preceded by a park point
@@ -151,20 +158,24 @@ type Kernel struct {
 	mapCalls     map[string]int
 	tasks        []*Task
 
-	step       int
-	stepA      atomic.Int64 // mirror of step for readers on other goroutines
-	startTime  time.Time
-	lastGid    uint64
-	digest     uint64
-	schedHash  uint64
-	trace      []string
-	TraceOn    bool
-	violation  *Violation
-	invariants []func()
-	exited     bool
-	exitCode   int
-	preemptAt  map[int]bool
-	lockPoints int
+	step        int
+	stepA       atomic.Int64 // mirror of step for readers on other goroutines
+	freeHeld    sync.Map     // parallel burst mode with AlignTick: goroutine id -> *int32, woven locks held or being taken
+	freeSeq     atomic.Uint64
+	alignTick   atomic.Uint64 // float64 bits of the AlignTick probability in force
+	alignSleeps atomic.Int64
+	startTime   time.Time
+	lastGid     uint64
+	digest      uint64
+	schedHash   uint64
+	trace       []string
+	TraceOn     bool
+	violation   *Violation
+	invariants  []func()
+	exited      bool
+	exitCode    int
+	preemptAt   map[int]bool
+	lockPoints  int
 
 	FS      *FS
 	sandbox string
@@ -219,6 +230,7 @@ func newKernel(seed uint64, p SchedParams) *Kernel {
 	for i := 0; i < p.Preempt; i++ {
 		k.preemptAt[pr.Intn(400)] = true
 	}
+	k.alignTick.Store(math.Float64bits(p.AlignTick))
 	return k
 }
 
@@ -327,8 +339,37 @@ func (k *Kernel) anonName(g uint64) string {
 
 // ---- cooperative mutexes ---------------------------------------------------------------------------------------------
 
+// freeAlign implements SchedParams.AlignTick (see there). Only a goroutine that holds no woven lock sleeps: one that
+// slept while holding a mutex would leave its waiters blocked on a real mutex, which is not a durable block, and the
+// fake clock would never advance.
+func (k *Kernel) freeAlign() {
+	g := goid()
+	v, _ := k.freeHeld.LoadOrStore(g, new(int32))
+	cnt := v.(*int32)
+	if atomic.LoadInt32(cnt) == 0 {
+		p := math.Float64frombits(k.alignTick.Load())
+		n := k.freeSeq.Add(1)
+		if p > 0 && float64(Mix(k.Seed, 0xa11+n)%10000)/10000 < p {
+			el := time.Since(k.startTime)
+			time.Sleep((el/time.Second+1)*time.Second - el)
+			k.alignSleeps.Add(1)
+		}
+	}
+	atomic.AddInt32(cnt, 1)
+}
+
+// SetAlignTick changes the AlignTick probability during a run (0 switches it off, e.g. before calls whose completion
+// is judged without letting time pass).
+func (k *Kernel) SetAlignTick(p float64) { k.alignTick.Store(math.Float64bits(p)) }
+
+// AlignSleeps is the number of times a goroutine was aligned with the tick (evidence).
+func (k *Kernel) AlignSleeps() int { return int(k.alignSleeps.Load()) }
+
 func (k *Kernel) lockHook(m interface{}, site string) {
 	if k.P.Free {
+		if k.P.AlignTick > 0 {
+			k.freeAlign()
+		}
 		return
 	}
 	g := goid()
@@ -351,6 +392,11 @@ func (k *Kernel) lockHook(m interface{}, site string) {
 
 func (k *Kernel) unlockHook(m interface{}) {
 	if k.P.Free {
+		if k.P.AlignTick > 0 {
+			if v, ok := k.freeHeld.Load(goid()); ok {
+				atomic.AddInt32(v.(*int32), -1)
+			}
+		}
 		return
 	}
 	k.mu.Lock()
